@@ -65,12 +65,21 @@ func (sess *UserSession) Copy(numSet imap.NumSet, destName string) (*imap.CopyDa
 		}
 	}
 
-	var sourceUIDs, destUIDs imap.UIDSet
+	// Never hold the mutexes of two mailboxes at the same time: two sessions
+	// copying messages in opposite directions would deadlock. Take a snapshot
+	// of the messages while the source mailbox is locked, then append them to
+	// the destination mailbox.
+	var snapshots []messageSnapshot
 	sess.mailbox.forEach(numSet, func(seqNum uint32, msg *message) {
-		appendData := dest.copyMsg(msg)
-		sourceUIDs.AddNum(msg.uid)
-		destUIDs.AddNum(appendData.UID)
+		snapshots = append(snapshots, msg.snapshot())
 	})
+
+	var sourceUIDs, destUIDs imap.UIDSet
+	for _, snapshot := range snapshots {
+		appendData := dest.copySnapshot(&snapshot)
+		sourceUIDs.AddNum(snapshot.msg.uid)
+		destUIDs.AddNum(appendData.UID)
+	}
 
 	return &imap.CopyData{
 		UIDValidity: dest.uidValidity,
@@ -94,17 +103,25 @@ func (sess *UserSession) Move(w *imapserver.MoveWriter, numSet imap.NumSet, dest
 		}
 	}
 
-	sess.mailbox.mutex.Lock()
-	defer sess.mailbox.mutex.Unlock()
+	// See the comment in Copy: the mutexes of the source and destination
+	// mailboxes are never held at the same time.
+	var snapshots []messageSnapshot
+	sess.mailbox.forEach(numSet, func(seqNum uint32, msg *message) {
+		snapshots = append(snapshots, msg.snapshot())
+	})
 
 	var sourceUIDs, destUIDs imap.UIDSet
 	expunged := make(map[*message]struct{})
-	sess.mailbox.forEachLocked(numSet, func(seqNum uint32, msg *message) {
-		appendData := dest.copyMsg(msg)
-		sourceUIDs.AddNum(msg.uid)
+	for _, snapshot := range snapshots {
+		appendData := dest.copySnapshot(&snapshot)
+		sourceUIDs.AddNum(snapshot.msg.uid)
 		destUIDs.AddNum(appendData.UID)
-		expunged[msg] = struct{}{}
-	})
+		expunged[snapshot.msg] = struct{}{}
+	}
+
+	sess.mailbox.mutex.Lock()
+	defer sess.mailbox.mutex.Unlock()
+
 	// The EXPUNGE responses are queued for all sessions, including this one:
 	// they are sent when the server polls for updates before completing the
 	// command. Writing them here as well would report each message twice.
